@@ -13,5 +13,9 @@ let handle = function
   | ["rparse"; c; s] -> show_o hex_of_bytes (c19_rparse (bytes_of_hex c) (nat_n s))
   | ["old"; m; p] -> show_o (fun (n, e) -> wire_of_labels n ^ " " ^ string_of_int (int_of_n e)) (c19_old (bytes_of_hex m) (nat_n p))
   | ["class"; m; p] -> (match c19_class (bytes_of_hex m) (nat_n p) with KNone -> "none" | KOwnSeg -> "own" | KHeader -> "hdr")
+  | ["bim"; base; names] ->
+      let ns = List.map bytes_of_hex (String.split_on_char ',' names) in
+      let b = int_of_string base in
+      show_o (fun c -> hex_of_bytes (List.filteri (fun i _ -> i >= b) c)) (c19_build (n_of_int b) ns)
   | _ -> failwith "bad case line"
 let () = main handle
